@@ -244,13 +244,16 @@ func runC19(c *Ctx) {
 					break
 				}
 				hd := p.decls().byFunc[fn.Origin()]
-				if hd == nil || hd.Body == nil || hd.Name.IsExported() || p.decls().infoOf[hd] != info || len(x.Args) != 1 {
+				if hd == nil || hd.Body == nil || hd.Name.IsExported() || p.decls().infoOf[hd] != info || len(x.Args) == 0 {
 					break
 				}
-				// a one-argument predicate: its parameter plays the argument's role
-				var param types.Object
-				if len(hd.Type.Params.List) == 1 && len(hd.Type.Params.List[0].Names) == 1 {
-					param = info.Defs[hd.Type.Params.List[0].Names[0]]
+				// a predicate helper: its parameters play their arguments' roles (at most one of them
+				// the divisor, the others integer variables that are not the divisor)
+				var params []types.Object
+				for _, fl := range hd.Type.Params.List {
+					for _, nm := range fl.Names {
+						params = append(params, info.Defs[nm])
+					}
 				}
 				var ret *ast.ReturnStmt
 				nRet := 0
@@ -260,13 +263,24 @@ func runC19(c *Ctx) {
 					}
 					return true
 				})
-				if param == nil || nRet != 1 || len(ret.Results) != 1 {
+				if len(params) != len(x.Args) || nRet != 1 || len(ret.Results) != 1 {
 					break
 				}
-				role := types.Object(nil) // the helper's parameter is "other" unless the argument is the divisor
-				if objOfIdent(info, x.Args[0]) == d {
-					role = param
-				} else if !isOther(x.Args[0]) {
+				role := types.Object(nil) // the helper's parameters are "other" unless the argument is the divisor
+				okArgs := true
+				for i, a := range x.Args {
+					switch {
+					case objOfIdent(info, a) == d && d != nil:
+						if role != nil || params[i] == nil {
+							okArgs = false
+						}
+						role = params[i]
+					case isOther(a):
+					default:
+						okArgs = false
+					}
+				}
+				if !okArgs {
 					break
 				}
 				return atCritical(ret.Results[0], hd.Body, role, depth-1, signed)
